@@ -1,5 +1,5 @@
 From Coq Require Import Extraction ExtrOcamlBasic ZArith.
-From GmVerif Require Import Base.Bytes Hash.MD Hash.SM3 Sm9.Tower Sm9.ModN Codec.Der Sm9.Sm9Der.
+From GmVerif Require Import Base.Bytes Hash.MD Hash.SM3 Sm9.Tower Sm9.ModN Codec.Der Sm9.Sm9Der Sm9.Sm9Groups.
 Extraction Language OCaml.
 Extraction "../ocaml/gen/ModelC17.ml"
   Z.of_N N.of_nat Z.ltb Z.leb Z.eqb Z.modulo Z.mul Z.add Z.sub Z.opp Z.pow
@@ -17,4 +17,6 @@ Extraction "../ocaml/gen/ModelC17.ml"
   modn_add modn_sub from_hash_impl from_hash_spec fh_quot
   sm9_hash1_impl sm9_hash1_spec sm9_hash2_impl sm9_hash2_spec
   sm9_sig_from_der sm9_sig_decode sm9_ct_from_der sm9_ct_decode sig_to_der ct_to_der g1_octets_ok
-  I2equ I2is_one I2is_zero I4equ I4is_zero I12equ.
+  I2equ I2is_one I2is_zero I4equ I4is_zero I12equ
+  modn_mul modn_pow modn_inv extract_t2 S2cj
+  J1dbl J1add J1sub J1neg J1add_affine J1on_curve J1equ J1mul booth J2dbl J2add J2add_full J2sub J2neg J2mul J2on_curve.
